@@ -1017,8 +1017,10 @@ impl MmapXen {
         len: usize,
     ) -> MmapXenSlice {
         match mmap_xen {
-            Some(mmap_xen) => mmap_xen.mmap.mmap_slice(addr, prot, len).unwrap(),
-            None => MmapXenSlice::raw(addr),
+            // A zero-length access touches no memory: there is nothing to map (and mapping an
+            // empty, page-aligned window would fail with EINVAL).
+            Some(mmap_xen) if len != 0 => mmap_xen.mmap.mmap_slice(addr, prot, len).unwrap(),
+            _ => MmapXenSlice::raw(addr),
         }
     }
 }
